@@ -1,17 +1,20 @@
 import Rustemo.Proofs.LayoutRTTile
 import Rustemo.Proofs.LayoutRTCert
+import Rustemo.Proofs.LayoutRTOrder
+import Rustemo.Model.LROld
 /-!
 # The generic tree is lossless under a user Layout rule (C14, part A)
 
-`GInv` generalises `RInv` of `Proofs/Roundtrip.lean`: "lexing again does not move" (`Stable`) becomes
-an arbitrary predicate `St` of the byte offset, and `NtG` says what a `next_token` function must
-satisfy for the round-trip invariant to survive a step: it ends at a settled offset; started at a
-settled offset it does not move; started right after a shift (no layout ahead, span ending at the
-position) it records exactly the bytes it advanced over as the layout ahead.
+`GInv` is `RInv` of `Proofs/Roundtrip.lean` without "lexing again does not move": since the repair of
+C14-N1 the layout skipped when the lexer is re-run after a reduce is MERGED into the layout ahead
+(`mergeLay`), so the invariant "the layout ahead is exactly the input between the end of the last
+shifted token and the position" survives a re-lex that moves.  `NtG` says what a `next_token`
+function must satisfy: it never moves backwards, and called right after a shift (no layout ahead,
+span ending at the position) it records exactly the bytes it advanced over as the layout ahead.
 
-`ntG_main` proves `NtG` for `nextTokenMain` of a Layout table from the executable conditions of
-`Model/LayoutCert.lean`, the scanner refinement (`layoutParse_scan`) and the slice theorem
-(`layoutParse_slice`).
+`ntG_main` proves `NtG` for `nextTokenMain` of a Layout table from the slice theorem
+(`layoutParse_slice`) and the position restore after a failed / empty layout parse (repair of
+C14-N2).  No hypothesis on the input is left.
 -/
 namespace Rustemo
 open LayoutCert
@@ -39,7 +42,10 @@ theorem runLoop_lay_none (env : Env) (hc : env.custom = none) (hsk : env.skipWs 
         have := ntBase_ctx env hc hsk true _ _ _ hnt1
         subst this; subst hc'; rfl
       | reduce state p len fromState s' pr acts ctx1 tk htop hcell hlen hfrom hpr hgoto hrlen hnt1 hc' =>
-        subst hc'; exact hl
+        have := ntBase_ctx env hc hsk true _ _ _ hnt1
+        subst this; subst hc'
+        show mergeLay c.ctx.lay c.ctx.pos.pos c.ctx.pos.pos = none
+        rw [mergeLay_same]; exact hl
     · rename_i ctx' r' hstep
       injection h with h1 _
       obtain ⟨_, _, _, _, _, hctx, _⟩ := step_done_inv env _ c ctx' r' hstep
@@ -74,21 +80,17 @@ theorem layoutParse_lay_none (env : Env) (hc : env.custom = none) (hsk : env.ski
     injection h with h1 _
     rw [← h1]; exact hl
 
-/-! ## The generalised invariant -/
+/-! ## The invariant -/
 
-structure GInv (env : Env) (St : Nat → Prop) (ms : List Nat) (c : Cfg) : Prop where
+structure GInv (env : Env) (c : Cfg) : Prop where
   flat : flatRes env.input c.res = env.input.take (endOf c.hist)
-  le : endOf c.hist ≤ c.ctx.pos.pos
   lay : LayOk (endOf c.hist) c.ctx
   tok : TokIn env.input c.ctx c.tok
-  settled : St c.ctx.pos.pos
-  states : ∀ it ∈ c.stack, it.state ∈ ms
 
 /-- what `next_token` must do for the round-trip invariant to survive a step -/
-def NtG (env : Env) (St : Nat → Prop) (ms : List Nat) (nt : Ctx → Ctx × Outcome Tok) : Prop :=
-  ∀ ctx ctx' tk, CtxOk env.input ctx → ctx.state ∈ ms → nt ctx = (ctx', .ok tk) →
-    St ctx'.pos.pos ∧ TokIn env.input ctx' tk ∧
-    (St ctx.pos.pos → ctx'.pos.pos = ctx.pos.pos) ∧
+def NtG (env : Env) (nt : Ctx → Ctx × Outcome Tok) : Prop :=
+  ∀ ctx ctx' tk, nt ctx = (ctx', .ok tk) →
+    TokIn env.input ctx' tk ∧ ctx.pos.pos ≤ ctx'.pos.pos ∧
     (ctx.lay = none → ctx.span.e.pos = ctx.pos.pos → LayOk ctx.pos.pos ctx')
 
 theorem layOk_le {E : Nat} {ctx : Ctx} (h : LayOk E ctx) : E ≤ ctx.pos.pos := by
@@ -113,6 +115,35 @@ theorem layBytes_of_layOk (input : List Nat) {E : Nat} {ctx : Ctx} (h : LayOk E 
     simp only
     unfold sliceOf
     simp [h]
+
+/-- the merged layout is again exactly the input between `E` and the (new) position -/
+theorem layOk_merge {E : Nat} {old : Ctx} (h : LayOk E old) (ctx1 : Ctx) (hle : old.pos.pos ≤ ctx1.pos.pos) :
+    LayOk E { ctx1 with lay := mergeLay old.lay old.pos.pos ctx1.pos.pos } := by
+  have hE := layOk_le h
+  by_cases hgt : ctx1.pos.pos > old.pos.pos
+  · have hstart : old.pos.pos - layLen old.lay = E := by
+      unfold LayOk at h
+      split at h
+      · rename_i o l hl
+        rw [hl]; simp only [layLen]; omega
+      · rename_i hl
+        rw [hl]; simp only [layLen]; omega
+    have hm : mergeLay old.lay old.pos.pos ctx1.pos.pos = some (E, ctx1.pos.pos - E) := by
+      unfold mergeLay
+      rw [if_pos hgt, hstart]
+    rw [hm]
+    unfold LayOk
+    simp only [true_and]
+    omega
+  · have hp : ctx1.pos.pos = old.pos.pos := by omega
+    have hm : mergeLay old.lay old.pos.pos ctx1.pos.pos = old.lay := by
+      unfold mergeLay
+      rw [if_neg hgt]
+    rw [hm]
+    unfold LayOk at h ⊢
+    simp only
+    rw [hp]
+    exact h
 
 theorem flat_shift (env : Env) (c : Cfg)
     (hflat : flatRes env.input c.res = env.input.take (endOf c.hist))
@@ -139,33 +170,9 @@ theorem flat_reduce (env : Env) (c : Cfg) (p len : Nat) :
     List.flatten_append, List.flatten_cons, List.flatten_nil, List.append_nil, reduceNode,
     Tree.flat, flat_ofList]
 
-theorem posOk_posOf (input : List Nat) (n : Nat) (h : n ≤ input.length) : PosOk input (posOf input n) := by
-  have := posOf_pos input n h
-  exact ⟨by rw [this], by rw [this]; exact h⟩
-
-theorem shiftCtx_ok (env : Env) (c : Cfg) (hinv : SInv env.input c) (hk : c.tok.kind ≠ 0) (s' : Nat) :
-    CtxOk env.input (shiftCtx env c s') := by
-  obtain ⟨hpos, _, hv2⟩ := shift_pos env c hinv hk s'
-  obtain ⟨hcp, _, _⟩ := hinv.ctx
-  have hok := posOk_posOf env.input _ hv2
-  have hpos' : posAfter (sliceOf env.input c.tok.val) c.ctx.pos =
-      posOf env.input (c.ctx.pos.pos + c.tok.val.2) := hpos
-  unfold CtxOk shiftCtx
-  simp only [hpos']
-  exact ⟨hok, hcp, hok⟩
-
-theorem mem_of_topState {st : List StackItem} {s : Nat} (h : topState st = some s) :
-    ∃ it ∈ st, it.state = s := by
-  unfold topState at h
-  cases st with
-  | nil => simp at h
-  | cons x xs => simp at h; exact ⟨x, by simp, h⟩
-
-/-- one iteration of the parser loop preserves the generalised round-trip invariant -/
-theorem step_ginv (env : Env) (St : Nat → Prop) (ms : List Nat) (hcl : Closed env.g env.t ms)
-    (nt : Ctx → Ctx × Outcome Tok) (c c' : Cfg) (hnt : NtG env St ms nt) (hns : NoShiftStop env.t)
-    (hs : SInv env.input c) (hinv : GInv env St ms c) (hstep : step env nt c = .next c') :
-    GInv env St ms c' := by
+/-- one iteration of the parser loop preserves the round-trip invariant -/
+theorem step_ginv (env : Env) (nt : Ctx → Ctx × Outcome Tok) (c c' : Cfg) (hnt : NtG env nt)
+    (hns : NoShiftStop env.t) (hinv : GInv env c) (hstep : step env nt c = .next c') : GInv env c' := by
   cases step_next_inv env nt c c' hstep with
   | shift state s' acts ctx1 tk htop hcell hnt1 hc' =>
     have hk : c.tok.kind ≠ 0 := by
@@ -174,76 +181,48 @@ theorem step_ginv (env : Env) (St : Nat → Prop) (ms : List Nat) (hcl : Closed 
       rcases hinv.tok with h | h
       · exact absurd h hk
       · exact h
-    obtain ⟨it, hit, hst⟩ := mem_of_topState htop
-    have hstate : state ∈ ms := by rw [← hst]; exact hinv.states it hit
-    have hs' : s' ∈ ms := hcl.shift state hstate c.tok.kind s' (by rw [hcell]; simp)
     have hp0 : (shiftCtx env c s').pos.pos = c.tok.val.1 + c.tok.val.2 := by
       show (posAfter (sliceOf env.input c.tok.val) c.ctx.pos).pos = _
       rw [posAfter_pos]
       have : c.tok.val = (c.tok.val.1, c.tok.val.2) := rfl
       rw [this, sliceOf_length _ _ _ hv2, hv1]
-    obtain ⟨h1, h2, _, h4⟩ := hnt _ ctx1 tk (shiftCtx_ok env c hs hk s') hs' hnt1
+    obtain ⟨h2, _, h4⟩ := hnt _ ctx1 tk hnt1
     have hlay := h4 rfl rfl
     rw [hp0] at hlay
     subst hc'
     have hE : endOf (c.tok :: c.hist) = c.tok.val.1 + c.tok.val.2 := rfl
-    refine ⟨?_, ?_, ?_, h2, h1, ?_⟩
+    refine ⟨?_, ?_, h2⟩
     · simp only [hE]; exact flat_shift env c hinv.flat hinv.lay hv1
-    · simp only [hE]; exact layOk_le hlay
     · simp only [hE]; exact hlay
-    · intro it' hit'
-      rcases List.mem_cons.mp hit' with h | h
-      · subst h; exact hs'
-      · exact hinv.states it' h
   | reduce state p len fromState s' pr acts ctx1 tk htop hcell hlen hfrom hpr hgoto hrlen hnt1 hc' =>
-    obtain ⟨it, hit, hst⟩ := mem_of_topState hfrom
-    have hfromS : fromState ∈ ms := by rw [← hst]; exact hinv.states it (List.mem_of_mem_drop hit)
-    have hs' : s' ∈ ms := hcl.goto fromState hfromS pr.lhs s' hgoto
-    obtain ⟨hcp, hcs, hce⟩ := hs.ctx
-    have hctx0 : CtxOk env.input (reduceCtx c s') := ⟨hcp, hcs, hce⟩
-    obtain ⟨h1, h2, h3, _⟩ := hnt _ ctx1 tk hctx0 hs' hnt1
-    have hpos : ctx1.pos.pos = c.ctx.pos.pos := h3 hinv.settled
+    obtain ⟨h2, hmono, _⟩ := hnt _ ctx1 tk hnt1
     subst hc'
-    refine ⟨?_, ?_, ?_, ?_, ?_, ?_⟩
+    refine ⟨?_, layOk_merge hinv.lay ctx1 hmono, ?_⟩
     · simp only; rw [flat_reduce]; exact hinv.flat
-    · simp only; rw [hpos]; exact hinv.le
-    · have := hinv.lay
-      unfold LayOk at this ⊢
-      simp only
-      rw [hpos]
-      exact this
     · unfold TokIn at h2 ⊢
       simp only
       exact h2
-    · simp only; exact h1
-    · intro it' hit'
-      rcases List.mem_cons.mp hit' with h | h
-      · subst h; exact hs'
-      · exact hinv.states it' (List.mem_of_mem_drop h)
 
-theorem runLoop_ginv (env : Env) (St : Nat → Prop) (ms : List Nat) (hcl : Closed env.g env.t ms)
-    (nt : Ctx → Ctx × Outcome Tok) (autos : List Auto)
+theorem runLoop_ginv (env : Env) (nt : Ctx → Ctx × Outcome Tok) (autos : List Auto)
     (hs : Structural env.g env.t autos) (au : Auto) (hin : au ∈ autos) (start : Nat)
-    (hstart : start = au.start) (hnt : NtG env St ms nt) (hntok : NtOk env.input nt)
-    (hns : NoShiftStop env.t) :
+    (hstart : start = au.start) (hnt : NtG env nt) (hns : NoShiftStop env.t) :
     ∀ (fuel : Nat) (c : Cfg) (ctx : Ctx) (r : ParseResult),
-      FInv start c → CInv env.g env.t start c.abs → SInv env.input c → GInv env St ms c →
+      FInv start c → CInv env.g env.t start c.abs → GInv env c →
       runLoop env nt fuel c = (ctx, .ok r) →
       Tree.flat env.input r.tree ++ layBytes env.input ctx.lay = env.input.take ctx.pos.pos ∧
       Tree.flat env.input r.tree = env.input.take (endOf r.hist) := by
   intro fuel
   induction fuel with
-  | zero => intro c ctx r _ _ _ _ h; simp [runLoop] at h
+  | zero => intro c ctx r _ _ _ h; simp [runLoop] at h
   | succ n ih =>
-    intro c ctx r hf hc hsi hr h
+    intro c ctx r hf hc hr h
     unfold runLoop at h
     split at h
     · rename_i c' hstep
       obtain ⟨hf', leafOf, nodeOf, hd, hcs⟩ := step_refines env nt start c c' hf hstep
       have hc' := cstep_preserves env.g env.t autos hs au hin start hstart leafOf nodeOf hd c.abs c'.abs
         c.tok.kind hc hcs
-      exact ih c' ctx r hf' hc' (step_spans env nt c c' hntok hns hsi hstep)
-        (step_ginv env St ms hcl nt c c' hnt hns hsi hr hstep) h
+      exact ih c' ctx r hf' hc' (step_ginv env nt c c' hnt hns hr hstep) h
     · rename_i ctx' r' hstep
       injection h with h1 h2
       injection h2 with h2
@@ -267,16 +246,13 @@ theorem runLoop_ginv (env : Env) (St : Nat → Prop) (ms : List Nat) (hcl : Clos
         simpa [flatRes] using hflat
       refine ⟨?_, by rw [hhist]; exact hflat'⟩
       rw [hflat', hctx, layBytes_of_layOk env.input hr.lay]
-      exact take_append_slice _ _ _ hr.le
+      exact take_append_slice _ _ _ (layOk_le hr.lay)
     · rename_i ctx' o hstep
       injection h with _ h2
       subst h2
       exact absurd rfl (step_stop_not_ok env nt c ctx' _ hstep r)
 
 /-! ## `nextTokenMain` of a Layout table -/
-
-/-- no layout parse started at this byte offset succeeds and consumes something -/
-def Settled (env : Env) (ls fuel : Nat) (p : Nat) : Prop := consumes env ls fuel p = false
 
 theorem noToken_inv (env : Env) (pp : Bool) (ctx ctx' : Ctx) (tk : Tok)
     (h : noToken env pp ctx = (ctx', .ok tk)) : ctx' = ctx ∧ tk.kind = 0 := by
@@ -292,12 +268,9 @@ theorem noToken_inv (env : Env) (pp : Bool) (ctx ctx' : Ctx) (tk : Tok)
 theorem ntG_main (env : Env) (hc : env.custom = none) (hsk : env.skipWs = false) (hr : RecogOk env)
     (hns : NoShiftStop env.t) (ls : Nat) (hl : env.t.layoutState = some ls)
     (hs : Structural env.g env.t (autosOf env.g env.t)) (au : Auto) (hin : au ∈ autosOf env.g env.t)
-    (hstart : ls = au.start) (hsym : env.g.nterms ≤ au.sym) (fuel : Nat) (ms : List Nat)
-    (hcond : Conds env ls fuel ms) (pp : Bool) :
-    NtG env (Settled env ls fuel) ms (nextTokenMain env pp fuel) := by
-  intro ctx ctx' tk hctx hstate hn
-  have hpl : ctx.pos.pos ≤ env.input.length := hctx.1.2
-  have hposAt : posAt env.input ctx.pos.pos = ctx.pos := by rw [posAt_eq_posOf]; exact hctx.1.1.symm
+    (hstart : ls = au.start) (hsym : env.g.nterms ≤ au.sym) (fuel : Nat) (pp : Bool) :
+    NtG env (nextTokenMain env pp fuel) := by
+  intro ctx ctx' tk hn
   unfold nextTokenMain lexNext at hn
   rw [hc, hsk] at hn
   simp only [Bool.false_eq_true, ↓reduceIte] at hn
@@ -307,38 +280,37 @@ theorem ntG_main (env : Env) (hc : env.custom = none) (hsk : env.skipWs = false)
     injection hn with h1 h2
     injection h2 with h2
     subst h1 h2
-    have hset : Settled env ls fuel ctx.pos.pos := by
-      apply hcond.notToken ctx.pos.pos hpl ctx.state hstate
-      rw [hposAt, hpick]; rfl
-    refine ⟨hset, Or.inr (tokenIterAux_val env hr ctx.pos _ false tk' (pickToken_mem hpick)),
-      fun _ => rfl, ?_⟩
+    refine ⟨Or.inr (tokenIterAux_val env hr ctx.pos _ false tk' (pickToken_mem hpick)), Nat.le_refl _, ?_⟩
     intro hlay _
     unfold LayOk; rw [hlay]
   · rw [hl] at hn
     simp only at hn
     generalize hlp : layoutParse env ls ctx fuel = lp at hn
     obtain ⟨cx, r⟩ := lp
-    obtain ⟨hscok, hscerr⟩ := layoutParse_scan env hc hsk hr hns ls ctx fuel cx r hctx hlp
+    have hmono := layoutParse_pos_mono env ls ctx fuel cx r hlp
     simp only at hn
-    -- facts shared by the branches in which the layout parse was accepted
-    have hacc : ∀ pr, r = .ok pr →
-        Settled env ls fuel cx.pos.pos ∧ (Settled env ls fuel ctx.pos.pos → cx.pos.pos = ctx.pos.pos) := by
-      intro pr hpr
-      have hsc := hscok pr hpr
-      exact ⟨hcond.idempotent ctx.pos.pos hpl cx.pos.pos hsc,
-        fun hset => consumes_false_ok env ls fuel _ _ hsc hset⟩
+    -- no layout found: the context is put back where it was
+    have hback : ∀ (c0 : Ctx), c0.pos = ctx.pos → c0.lay = cx.lay → noToken env pp c0 = (ctx', .ok tk) →
+        TokIn env.input ctx' tk ∧ ctx.pos.pos ≤ ctx'.pos.pos ∧
+        (ctx.lay = none → ctx.span.e.pos = ctx.pos.pos → LayOk ctx.pos.pos ctx') := by
+      intro c0 hp0 hl0 hn0
+      obtain ⟨hctx', hk⟩ := noToken_inv env pp _ _ _ hn0
+      subst hctx'
+      refine ⟨Or.inl hk, by rw [hp0]; exact Nat.le_refl _, ?_⟩
+      intro hlay _
+      have hcl := layoutParse_lay_none env hc hsk ls ctx fuel cx _ hlay hlp
+      unfold LayOk
+      rw [hl0, hcl, hp0]
     split at hn
     · rename_i pr
-      obtain ⟨hset, hstay⟩ := hacc pr rfl
       split at hn
       · rename_i off len hslice
         split at hn
         · -- layout skipped, lex again
-          rename_i hlen
           have hctx' := ntBase_ctx env hc hsk pp _ _ _ hn
           have htok := (ntLay_base env hc hr pp _ _ _ hn).2.2.2 tk rfl
           subst hctx'
-          refine ⟨hset, htok, hstay, ?_⟩
+          refine ⟨htok, hmono, ?_⟩
           intro hlay hE
           obtain ⟨hsl, hle, _⟩ := layoutParse_slice env hc hsk hr hns _ hs au hin ls hstart hsym ctx hE
             fuel cx pr hlp
@@ -349,42 +321,9 @@ theorem ntG_main (env : Env) (hc : env.custom = none) (hsk : env.skipWs = false)
           unfold LayOk
           simp only [true_and]
           omega
-        · rename_i hlen
-          obtain ⟨hctx', hk⟩ := noToken_inv env pp _ _ _ hn
-          subst hctx'
-          refine ⟨hset, Or.inl hk, hstay, ?_⟩
-          intro hlay hE
-          obtain ⟨hsl, hle, _⟩ := layoutParse_slice env hc hsk hr hns _ hs au hin ls hstart hsym ctx hE
-            fuel cx pr hlp
-          rw [hslice] at hsl
-          injection hsl with hsl
-          injection hsl with ho hlen'
-          have hcl := layoutParse_lay_none env hc hsk ls ctx fuel cx _ hlay hlp
-          unfold LayOk
-          simp only [hcl]
-          omega
-      · rename_i hslice
-        obtain ⟨hctx', hk⟩ := noToken_inv env pp _ _ _ hn
-        subst hctx'
-        refine ⟨hset, Or.inl hk, hstay, ?_⟩
-        intro hlay hE
-        obtain ⟨hsl, _, _⟩ := layoutParse_slice env hc hsk hr hns _ hs au hin ls hstart hsym ctx hE
-          fuel cx pr hlp
-        rw [hslice] at hsl
-        simp at hsl
-    · -- the layout parse failed
-      rename_i e
-      obtain ⟨hctx', hk⟩ := noToken_inv env pp _ _ _ hn
-      subst hctx'
-      have hsc := hscerr e rfl
-      have hq : cx.pos.pos = ctx.pos.pos := hcond.failStays ctx.pos.pos hpl _ hsc
-      have hset : Settled env ls fuel ctx.pos.pos := consumes_fail env ls fuel _ _ hsc
-      refine ⟨by show Settled env ls fuel cx.pos.pos; rw [hq]; exact hset, Or.inl hk, fun _ => hq, ?_⟩
-      intro hlay _
-      have hcl := layoutParse_lay_none env hc hsk ls ctx fuel cx _ hlay hlp
-      unfold LayOk
-      simp only [hcl]
-      exact hq
+        · exact hback { cx with state := ctx.state, span := ctx.span, pos := ctx.pos } rfl rfl hn
+      · exact hback { cx with state := ctx.state, span := ctx.span, pos := ctx.pos } rfl rfl hn
+    · exact hback { cx with state := ctx.state, span := ctx.span, pos := ctx.pos } rfl rfl hn
     · injection hn with _ h2; simp at h2
     · injection hn with _ h2; simp at h2
 
@@ -392,41 +331,24 @@ theorem ntG_main (env : Env) (hc : env.custom = none) (hsk : env.skipWs = false)
 theorem parse_roundtrip_layout (env : Env) (hc : env.custom = none) (hsk : env.skipWs = false)
     (ls : Nat) (hl : env.t.layoutState = some ls) (hr : RecogOk env) (hns : NoShiftStop env.t)
     (hs : Structural env.g env.t (autosOf env.g env.t))
-    (pp : Bool) (fuel : Nat) (hcert : LayoutCert.check env ls fuel = true)
+    (hauto : LayoutCert.autoOk env.g env.t ls = true) (pp : Bool) (fuel : Nat)
     (ctx : Ctx) (r : ParseResult) (h : parse env pp fuel = (ctx, .ok r)) :
     Tree.flat env.input r.tree ++ layBytes env.input ctx.lay = env.input.take ctx.pos.pos ∧
     Tree.flat env.input r.tree = env.input.take (endOf r.hist) := by
-  unfold LayoutCert.check LayoutCert.static at hcert
-  simp only [Bool.and_eq_true] at hcert
-  obtain ⟨⟨⟨⟨hclosed, hauto⟩, h1⟩, h2⟩, h3⟩ := hcert
-  have hcl := closed_sound env.g env.t _ hclosed
-  have hcond := conds_sound env ls fuel h1 h2 h3
   obtain ⟨au, hin, hstart, hsym⟩ := autoOk_sound env.g env.t ls hauto
-  have hnt := ntG_main env hc hsk hr hns ls hl hs au hin hstart hsym fuel _ hcond pp
-  have hntok := ntOk_main env hc hr hns pp fuel
+  have hnt := ntG_main env hc hsk hr hns ls hl hs au hin hstart hsym fuel pp
   unfold parse parseWith at h
   simp only at h
-  have h0 : CtxOk env.input ({} : Ctx) := by
-    have hs0 : PosOk env.input Pos.start := by
-      unfold PosOk posOf Pos.start; simp [posAfter, lastNl]
-    exact ⟨hs0, hs0, hs0⟩
   split at h
   · rename_i ctx1 tk hnt1
-    obtain ⟨hset1, htok1, _, hlay1⟩ := hnt _ ctx1 tk h0 hcl.start hnt1
-    obtain ⟨hc1, ht1⟩ := hntok _ _ _ h0 hnt1
+    obtain ⟨htok1, _, hlay1⟩ := hnt _ ctx1 tk hnt1
     have hlay := hlay1 rfl rfl
-    refine runLoop_ginv env _ _ hcl _ (autosOf env.g env.t) hs ⟨0, 0, env.g.startIdx⟩
-      (by unfold autosOf; exact List.mem_cons_self) 0 rfl hnt hntok hns fuel _ ctx r
+    refine runLoop_ginv env _ (autosOf env.g env.t) hs ⟨0, 0, env.g.startIdx⟩
+      (by unfold autosOf; exact List.mem_cons_self) 0 rfl hnt hns fuel _ ctx r
       ⟨by simp, by simp⟩
-      ⟨by simp [Cfg.abs, absStack, PathInv], by simp [Cfg.abs, absStack, yields]⟩
-      ⟨by simp, hc1, by simp, by simp, ht1 tk rfl⟩ ?_ h
-    refine ⟨by simp [flatRes, endOf], ?_, ?_, htok1, hset1, ?_⟩
-    · simp only [endOf]; omega
-    · simp only [endOf]; exact hlay
-    · intro it hit
-      simp at hit
-      subst hit
-      exact hcl.start
+      ⟨by simp [Cfg.abs, absStack, PathInv], by simp [Cfg.abs, absStack, yields]⟩ ?_ h
+    refine ⟨by simp [flatRes, endOf], ?_, htok1⟩
+    simp only [endOf]; exact hlay
   all_goals (injection h with _ h2; simp at h2)
 
 end Rustemo
@@ -440,6 +362,25 @@ def flatOf (env : Env) (pp : Bool) (fuel : Nat) : Option (List Nat × List Nat) 
   | (ctx, .ok r) =>
     some (Tree.flat env.input r.tree ++ layBytes env.input ctx.lay, env.input.take ctx.pos.pos)
   | _ => none
+
+/-- the same for the loop as it was before the repairs of C14-N1/N2 (`Model/LROld.lean`) -/
+def flatOfOld (env : Env) (pp : Bool) (fuel : Nat) : Option (List Nat × List Nat) :=
+  match parseOld env pp fuel with
+  | (ctx, .ok r) =>
+    some (Tree.flat env.input r.tree ++ layBytes env.input ctx.lay, env.input.take ctx.pos.pos)
+  | _ => none
+
+theorem flatOfOld_spec (env : Env) (pp : Bool) (fuel : Nat) (a b : List Nat)
+    (h : flatOfOld env pp fuel = some (a, b)) :
+    ∃ ctx r, parseOld env pp fuel = (ctx, .ok r) ∧
+      Tree.flat env.input r.tree ++ layBytes env.input ctx.lay = a ∧ env.input.take ctx.pos.pos = b := by
+  unfold flatOfOld at h
+  split at h
+  · rename_i ctx r heq
+    injection h with h
+    injection h with h1 h2
+    exact ⟨ctx, r, heq, h1, h2⟩
+  · simp at h
 
 theorem flatOf_spec (env : Env) (pp : Bool) (fuel : Nat) (a b : List Nat)
     (h : flatOf env pp fuel = some (a, b)) :
